@@ -50,7 +50,9 @@ var dictionary = []string{`"`, `""`, `''`, `'`, "@", ">", "+", "#", ":", "::", "
 	// shapes real tools write: an empty B array tag, a long bracketed annotation block (BEAST), a UCSC track line,
 	// a placeholder sign, an Illumina read name
 	"ML:B:C", "\tML:B:C", "[&" + strings.Repeat("rate=0.125,height_95%_HPD={0.1,0.2},", 6) + "posterior=1]", "[]", "track name=x description=\"y z\"\n", "browser position chr1:1-2\n",
-	"\t-\t", "\t+\t", "M01234:56:000000000-ABCDE:1:1101:15589:1332 1:N:0:1", "/1", "chrUn_gl000220", "1e-05", "1.0E+2", "-0", "+1", "1."}
+	"\t-\t", "\t+\t", "M01234:56:000000000-ABCDE:1:1101:15589:1332 1:N:0:1", "/1", "chrUn_gl000220", "1e-05", "1.0E+2", "-0", "+1", "1.",
+	// numbers with more digits than a float64 or an int holds exactly
+	"0.97552492417777546", ":0.97552492417777546", "0.1000000000000000055511151231257827", "9007199254740993", "1.7976931348623157e308", "4.9e-324", "123456789012345678901234567890"}
 
 // ---- own renderers of valid text (independent of the library's writers) -------------------
 
